@@ -29,27 +29,31 @@ def ty_range(ty):
 class AV:
     """abstract integer: closed interval + taint.  `w` marks a value whose range was widened at a loop head: its magnitude
     is an artefact of the analysis, not something the caller chose, so it is never reported (sticky, clears the taint)"""
-    __slots__ = ("lo", "hi", "t", "why", "w")
+    __slots__ = ("lo", "hi", "t", "why", "w", "x")
 
-    def __init__(self, lo, hi, t=False, why="", w=False):
+    def __init__(self, lo, hi, t=False, why="", w=False, x=None):
+        # x: None = the bounds are an over-approximation; a frozenset of source names = EXACT: both bounds are attained by some
+        # choice of the named caller-controlled sources (independent of every other source)
         self.lo, self.hi, self.t, self.why, self.w = lo, hi, (t and not w), why, w
+        self.x = None if w else (frozenset() if (x is None and lo == hi) else x)
 
     def __repr__(self):
-        return "[%s,%s]%s%s" % (self.lo, self.hi, "T" if self.t else "", "W" if self.w else "")
+        return "[%s,%s]%s%s%s" % (self.lo, self.hi, "T" if self.t else "", "W" if self.w else "", "x" if self.x is not None else "")
 
     def key(self):
-        return (self.lo, self.hi, self.t, self.w)
+        return (self.lo, self.hi, self.t, self.w, self.x)
 
 
 class Fl:
-    """abstract float: taint and, when known, a bound on the magnitude (|x| <= mag)"""
-    __slots__ = ("t", "why", "mag")
+    """abstract float: taint and, when known, a bound on the magnitude (|x| <= mag); `w` as for AV"""
+    __slots__ = ("t", "why", "mag", "w", "x")
 
-    def __init__(self, t=False, why="", mag=None):
-        self.t, self.why, self.mag = t, why, mag
+    def __init__(self, t=False, why="", mag=None, w=False, x=None):
+        self.t, self.why, self.mag, self.w = (t and not w), why, mag, w
+        self.x = None if (w or mag is None) else x
 
     def key(self):
-        return ("f", self.t, self.mag)
+        return ("f", self.t, self.mag, self.w, self.x)
 
 
 class Rec:
@@ -93,9 +97,11 @@ def join(a, b):
     if a is None or b is None:
         return None
     if isinstance(a, AV) and isinstance(b, AV):
-        return AV(min(a.lo, b.lo), max(a.hi, b.hi), a.t or b.t, a.why if a.t else b.why, a.w or b.w)
+        return AV(min(a.lo, b.lo), max(a.hi, b.hi), a.t or b.t, a.why if a.t else b.why, a.w or b.w,
+                  (a.x | b.x) if (a.x is not None and b.x is not None) else None)
     if isinstance(a, Fl) and isinstance(b, Fl):
-        return Fl(a.t or b.t, a.why if a.t else b.why, None if (a.mag is None or b.mag is None) else max(a.mag, b.mag))
+        return Fl(a.t or b.t, a.why if a.t else b.why, None if (a.mag is None or b.mag is None) else max(a.mag, b.mag),
+                  a.w or b.w, (a.x | b.x) if (a.x is not None and b.x is not None) else None)
     if isinstance(a, Rec) and isinstance(b, Rec):
         out = {}
         for k in set(a.f) | set(b.f):
@@ -189,6 +195,18 @@ VALIDATING_FNS = {CORE + "duration::Duration::new": DUR, CORE + "duration::date:
                   "temporal_rs::iso::IsoDate::new_with_overflow": ISO_DATE, "temporal_rs::iso::IsoDateTime::new": ISO_DT}
 
 
+# pure single-argument kernels that are monotone (non-decreasing) in their argument: the image of an exact interval is the
+# exact interval between the images of its end points, which are obtained by constant folding of the kernel's HIR.
+# Reviewed: each is a floor-division / calendar-position function of a time or a year.
+MONOTONE = {
+    "temporal_rs::utils::epoch_time_to_epoch_year": "the calendar year of an epoch time grows with the time",
+    "temporal_rs::utils::epoch_days_for_year": "the day number of January 1st grows with the year",
+    "temporal_rs::utils::epoch_time_for_year": "the epoch time of January 1st grows with the year",
+    "temporal_rs::utils::epoch_ms_to_epoch_days": "floor division by a positive constant",
+    "temporal_rs::utils::epoch_time_to_day_number": "floor division by a positive constant",
+}
+
+
 def base_ty(ty):
     t = (ty or "").strip()
     while t.startswith("&"):
@@ -256,12 +274,17 @@ class Engine:
                 b = b.split(" ", 1)[1]
         r = ty_range(b)
         if r:
-            return AV(r[0], r[1], mode in ("T", "V"), why if mode in ("T", "V") else "")
+            return AV(r[0], r[1], mode in ("T", "V"), why if mode in ("T", "V") else "", False,
+                      frozenset([why]) if (mode == "T" and why) else None)
         if b == "bool":
             return AV(0, 1)
         if b in ("f64", "f32"):
             return Fl(mode in ("T", "V"), why if mode in ("T", "V") else "")
         bt = base_ty(b)
+        if is_foreign_data(b) and mode in ("T", "V"):
+            # records delivered by the tzif / ixdtf parsers satisfy their format contracts (assumption of C03): their
+            # fields are not treated as freely chosen by the caller
+            mode, why = "U", ""
         if bt in VALIDATED_OUTER and mode != "V":
             # values of the range-checked types are valid however they arrive (C02 R6: every producer validates)
             return Lazy(b, "V", "")
@@ -313,22 +336,26 @@ class Engine:
             if val.mode == "V":
                 inv = FIELD_INVARIANTS.get((ofb, fname))
                 if inv:
-                    return AV(inv[0], inv[1], True, "field `%s` of a valid %s" % (fname, ofb.rsplit("::", 1)[-1]))
+                    src = "field `%s` of a valid %s" % (fname, ofb.rsplit("::", 1)[-1])
+                    return AV(inv[0], inv[1], True, src, False, frozenset([src]))
                 finv = FLOAT_INVARIANTS.get((ofb, fname))
                 if finv:
-                    fl = Fl(True, "field `%s` of a valid %s" % (fname, ofb.rsplit("::", 1)[-1]), finv)
+                    src = "field `%s` of a valid %s" % (fname, ofb.rsplit("::", 1)[-1])
+                    fl = Fl(True, src, finv, False, frozenset([src]))
                     return Rec({"0": fl, 0: fl})
                 return self.top(fty, "V", val.why or "a valid %s" % ofb.rsplit("::", 1)[-1])
             if val.mode == "T":
                 sub = self.top(fty, "T", val.why)
                 if isinstance(sub, (AV, Fl)) and sub.t:
                     sub.why = "%s.%s" % (val.why, fname)
+                    if isinstance(sub, AV):
+                        sub.x = frozenset([sub.why])
                 return sub
             return self.top(fty)
         return self.top(fty)
 
     # ---- driver (context-sensitive: a callee is analysed per distinct abstract argument tuple) ---------------------------
-    MAX_CTX = 24
+    MAX_CTX = 400
     keep_args = False
     MAX_DEPTH = 16
 
@@ -343,13 +370,15 @@ class Engine:
             elif (f.d.get("impl_trait") or "").endswith("provider::TimeZoneProvider") and p["ty"] == "i128":
                 # contract of the trait: the library passes the epoch nanoseconds of a valid instant (+- one day of offset)
                 lim = 8_640_000_000_000_000_000_000 + 86_400_000_000_000
-                vals.append(AV(-lim, lim, True, "the epoch nanoseconds passed to TimeZoneProvider::%s" % f.name))
+                src = "the epoch nanoseconds passed to TimeZoneProvider::%s" % f.name
+                vals.append(AV(-lim, lim, True, src, False, frozenset([src])))
             else:
                 vals.append(self.top(p["ty"], "T", why))
         return vals
 
     def run(self):
         self.memo = {}
+        self.fold_cache = {}
         self.promoted_cache = {}
         self.ctx_args = {}
         self.ctx = defaultdict(int)
@@ -395,6 +424,26 @@ class Engine:
         if self.keep_args:
             self.ctx_args[key] = (args, stack)
         return ret
+
+    def fold_monotone(self, path, a):
+        key = (path, a.lo, a.hi)
+        if key not in self.fold_cache:
+            from .. import hireval as H
+            out = None
+            try:
+                f = self.fns[path]
+                lo = H.Evaluator(self.fx).call_fn(f, [a.lo])
+                hi = H.Evaluator(self.fx).call_fn(f, [a.hi])
+                if isinstance(lo, int) and isinstance(hi, int) and not isinstance(lo, bool) and lo <= hi:
+                    out = (lo, hi)
+            except Exception:
+                out = None
+            self.fold_cache[key] = out
+        r = self.fold_cache[key]
+        if r is None:
+            return None
+        self.stats["monotone_folds"] = self.stats.get("monotone_folds", 0) + 1
+        return AV(r[0], r[1], a.t, a.why, a.w, a.x)
 
     def promoted_value(self, f, idx, subst):
         key = (f.path, idx, tuple(sorted(subst.items())))
@@ -464,7 +513,7 @@ def widen(old, new, ty):
     if isinstance(old, AV) and isinstance(new, AV):
         if new.lo < old.lo or new.hi > old.hi:
             r = ty_range(ty) or (min(old.lo, new.lo), max(old.hi, new.hi))
-            return AV(min(r[0], new.lo), max(r[1], new.hi), new.t, new.why, new.w)
+            return AV(min(r[0], new.lo), max(r[1], new.hi), new.t, new.why, new.w, new.x)
     return new
 
 
@@ -502,6 +551,8 @@ class FnAnalysis:
                 if isinstance(v, Rec):
                     if ("variant", e["as"]) in v.f:
                         v = v.f[("variant", e["as"])]
+                    elif "__lazy" in v.f:
+                        v = v.f["__lazy"]
                     elif any(isinstance(k, tuple) for k in v.f):
                         v = None            # a variant this value cannot be (infeasible path) or unknown
                 # a Lazy stays: its fields are derived from the field types
@@ -521,13 +572,17 @@ class FnAnalysis:
                 return AV(int(v), int(v))
             if isinstance(v, int):
                 return AV(v, v)
+            if k.get("def") in self.eng.fns and not isinstance(v, (int, bool)) and self.eng.fns[k["def"]].kind.startswith(("Const", "Static")):
+                cv = self.eng.call_fn(k["def"], [], self.stack if k["def"] not in self.stack else self.stack)
+                if cv is not None and k["def"] not in self.stack:
+                    return cv
             if "promoted" in k and not self.is_promoted:
                 pv = self.eng.promoted_value(self.f, k["promoted"], self.subst)
                 if pv is not None:
                     return pv
             if isinstance(v, dict) and "f64" in v:
                 try:
-                    return Fl(False, "", abs(float(v["f64"])))
+                    return Fl(False, "", abs(float(v["f64"])), False, frozenset())
                 except (TypeError, ValueError):
                     return Fl(False)
             return self.eng.top(self.sty(k.get("ty")))
@@ -535,6 +590,32 @@ class FnAnalysis:
         if p is None:
             return None
         return self.read_place(env, p)
+
+    def place_ty(self, p):
+        for e in reversed(M.place_proj(p)):
+            if isinstance(e, dict) and "ty" in e:
+                return self.sty(e["ty"])
+            if e != "*":
+                return None
+        return self.lty(M.place_local(p))
+
+    def discr_map(self, ty):
+        """variant name -> discriminant value of an enum type"""
+        t = (ty or "").lstrip("&").strip()
+        if t.startswith("core::option::Option<"):
+            return {"None": 0, "Some": 1}
+        if t.startswith("core::result::Result<"):
+            return {"Ok": 0, "Err": 1}
+        if t.startswith("core::ops::control_flow::ControlFlow<"):
+            return {"Continue": 0, "Break": 1}
+        ad = self.eng.adts.get(base_ty(t))
+        if ad is None or ad.get("kind") != "enum":
+            return None
+        out = {}
+        for i, v in enumerate(ad["variants"]):
+            d = v.get("discr")
+            out[v["name"]] = i if d is None else d
+        return out
 
     def op_ty(self, op):
         if "k" in op:
@@ -557,30 +638,39 @@ class FnAnalysis:
             if e == "*":
                 continue
             if isinstance(e, dict) and "f" in e:
-                path = path + ((e.get("n"), e["f"]),)
+                path = path + ((e.get("n"), e["f"], self.sty(e.get("ty")), self.sty(e.get("of"))),)
+            elif isinstance(e, dict) and "as" in e and e["as"] is not None:
+                path = path + ((("variant", e["as"]), None, None, None),)
             else:
                 return None
         return root, path
 
     def get_path(self, env, root, path):
         v = env.get(root)
-        for name, idx in path:
-            v = self.eng.field_of(v, name, idx, None, None)
+        for name, idx, fty, of in path:
+            if isinstance(name, tuple):
+                if isinstance(v, Rec):
+                    v = v.f.get(name) if name in v.f else (v.f.get("__lazy") if "__lazy" in v.f else None)
+                elif not isinstance(v, Lazy):
+                    v = None
+            else:
+                v = self.eng.field_of(v, name, idx, fty, of)
         return v
 
     def updated(self, val, path, newval):
-        (name, idx) = path[0]
+        (name, idx, fty, of) = path[0]
         if isinstance(val, Lazy):
             e = self.eng.expand(val)
             val = e if e is not None else Rec({"__lazy": val})
         f = dict(val.f) if isinstance(val, Rec) else {}
         cur = f.get(name) if (name is not None and name in f) else f.get(idx)
         if cur is None and "__lazy" in f and len(path) > 1:
-            cur = self.eng.field_of(f["__lazy"], name, idx, None, None)
+            cur = f["__lazy"] if isinstance(name, tuple) else self.eng.field_of(f["__lazy"], name, idx, fty, of)
         new = newval if len(path) == 1 else self.updated(cur, path[1:], newval)
         if name is not None:
             f[name] = new
-        f[idx] = new
+        if idx is not None:
+            f[idx] = new
         return Rec(f)
 
     def set_path(self, env, root, path, newval):
@@ -616,7 +706,7 @@ class FnAnalysis:
         self.kill_aliases(env, root, keep=l)
         if root != l:
             # the reference's own view
-            own = [((e.get("n"), e["f"])) for e in pr if isinstance(e, dict) and "f" in e]
+            own = [(e.get("n"), e["f"], self.sty(e.get("ty")), self.sty(e.get("of"))) for e in pr if isinstance(e, dict) and "f" in e]
             env[l] = self.updated(env.get(l), tuple(own), val) if own else val
 
     # ---- arithmetic --------------------------------------------------------------------------------------------------
@@ -630,6 +720,17 @@ class FnAnalysis:
         r_ = self._arith(op, a, b, ty)
         if r_ is not None and w:
             r_ = AV(r_.lo, r_.hi, False, "", True)
+        elif r_ is not None:
+            # exactness: monotone operation on independent exact operands attains its interval bounds
+            ok = a.x is not None and b.x is not None and a.x.isdisjoint(b.x)
+            base = op.replace("WithOverflow", "").replace("Unchecked", "")
+            if ok and base in ("Div", "Rem") and not (b.lo == b.hi and b.lo != 0):
+                ok = False
+            if ok and base == "Rem" and (a.hi - a.lo) < abs(b.lo):
+                ok = False
+            if ok and base not in ("Add", "Sub", "Mul", "Div", "Rem"):
+                ok = False
+            r_.x = (a.x | b.x) if ok else (frozenset() if r_.lo == r_.hi else None)
         return r_
 
     def _arith(self, op, a, b, ty):
@@ -676,7 +777,7 @@ class FnAnalysis:
         r = ty_range(ty)
         if isinstance(v, AV) and r:
             if v.lo < r[0] or v.hi > r[1]:
-                return AV(max(v.lo, r[0]) if v.lo <= r[1] else r[0], min(v.hi, r[1]) if v.hi >= r[0] else r[1], v.t, v.why, v.w)
+                return AV(max(v.lo, r[0]) if v.lo <= r[1] else r[0], min(v.hi, r[1]) if v.hi >= r[0] else r[1], v.t, v.why, v.w, None)
         return v
 
     # ---- main loop -------------------------------------------------------------------------------------------------------
@@ -792,6 +893,7 @@ class FnAnalysis:
         val = None
         self._pending_alias = None
         self._pending_pred = None
+        self._pending_discr = None
         if kind == "use":
             op = rv[1]
             val = self.operand(env, op)
@@ -814,26 +916,29 @@ class FnAnalysis:
             if ck == "IntToInt":
                 r = ty_range(tty)
                 if isinstance(v, AV) and r and v.lo >= r[0] and v.hi <= r[1]:
-                    val = AV(v.lo, v.hi, v.t, v.why, v.w)
+                    val = AV(v.lo, v.hi, v.t, v.why, v.w, v.x)
                     p = M.op_place(op)
                     if p is not None and not M.place_proj(place) and self.b.locals[l][1] is None:
                         self._pending_alias = self.resolve_place(env, p)
                 elif r:
                     t = getattr(v, "t", False)
-                    val = AV(r[0], r[1], t, getattr(v, "why", ""))
+                    cover = isinstance(v, AV) and v.lo <= r[0] and v.hi >= r[1]
+                    val = AV(r[0], r[1], t, getattr(v, "why", ""), getattr(v, "w", False), v.x if cover else None)
             elif ck == "FloatToInt":
                 r = ty_range(tty)
                 if r:
                     m = getattr(v, "mag", None)
                     if m is not None:
-                        val = AV(max(r[0], -m), min(r[1], m), getattr(v, "t", False), getattr(v, "why", ""))
+                        val = AV(max(r[0], -m), min(r[1], m), getattr(v, "t", False), getattr(v, "why", ""), getattr(v, "w", False),
+                                 getattr(v, "x", None))
                     else:
-                        val = AV(r[0], r[1], getattr(v, "t", False), getattr(v, "why", ""))
+                        val = AV(r[0], r[1], getattr(v, "t", False), getattr(v, "why", ""), getattr(v, "w", False))
             elif ck == "IntToFloat":
                 m = max(abs(v.lo), abs(v.hi)) if isinstance(v, AV) else None
-                val = Fl(getattr(v, "t", False), getattr(v, "why", ""), m)
+                val = Fl(getattr(v, "t", False), getattr(v, "why", ""), m, getattr(v, "w", False), getattr(v, "x", None))
             elif ck == "FloatToFloat":
-                val = Fl(getattr(v, "t", False), getattr(v, "why", ""), getattr(v, "mag", None))
+                val = Fl(getattr(v, "t", False), getattr(v, "why", ""), getattr(v, "mag", None), getattr(v, "w", False),
+                         getattr(v, "x", None))
             else:
                 val = v if ck.startswith("PointerCoercion") or ck in ("PtrToPtr", "Transmute") else None
         elif kind == "bin":
@@ -853,13 +958,16 @@ class FnAnalysis:
                     if op == "Rem" and mb is not None:
                         mag = mb
                     val = Fl(getattr(a, "t", False) or getattr(b, "t", False),
-                             getattr(a, "why", "") if getattr(a, "t", False) else getattr(b, "why", ""), mag)
+                             getattr(a, "why", "") if getattr(a, "t", False) else getattr(b, "why", ""), mag,
+                             getattr(a, "w", False) or getattr(b, "w", False),
+                             (a.x | b.x) if (op in ("Add", "Sub", "Mul") and getattr(a, "x", None) is not None
+                                             and getattr(b, "x", None) is not None and a.x.isdisjoint(b.x)) else None)
                 else:
                     val = self.clamp_ty(self.arith(op, a, b, ty), ty)
         elif kind == "un":
             op, a, ty = rv[1], self.operand(env, rv[2]), self.sty(rv[3])
             if op == "Neg" and isinstance(a, AV):
-                val = self.clamp_ty(AV(-a.hi, -a.lo, a.t, a.why, a.w), ty)
+                val = self.clamp_ty(AV(-a.hi, -a.lo, a.t, a.why, a.w, a.x), ty)
             elif op == "Neg" and isinstance(a, Fl):
                 val = a
             elif op == "Not":
@@ -871,6 +979,15 @@ class FnAnalysis:
                 val = self.eng.top(ty)
         elif kind == "discr":
             val = AV(0, 64)
+            ev = self.read_place(env, rv[1])
+            dm = self.discr_map(self.place_ty(rv[1]))
+            if isinstance(ev, Rec) and dm and any(isinstance(k, tuple) for k in ev.f):
+                poss = {dm[k[1]]: k[1] for k in ev.f if isinstance(k, tuple) and k[1] in dm}
+                rp = self.resolve_place(env, rv[1])
+                if poss and len(poss) == sum(1 for k in ev.f if isinstance(k, tuple)):
+                    val = AV(min(poss), max(poss))
+                    if rp is not None and not M.place_proj(place):
+                        self._pending_discr = (rp, poss)
         elif kind == "agg":
             akind, ops = rv[1], rv[2]
             vals = [self.operand(env, o) for o in ops]
@@ -911,6 +1028,10 @@ class FnAnalysis:
             env[("alias", l)] = self._pending_alias
         if self._pending_pred is not None:
             env[("p", l)] = self._pending_pred
+        if not M.place_proj(place):
+            env.pop(("discr", l), None)
+            if self._pending_discr is not None and self._pending_discr[0][0] != l:
+                env[("discr", l)] = self._pending_discr
 
     def root(self, env, l):
         """resolved place of a local (for predicates): (root, path)"""
@@ -939,7 +1060,20 @@ class FnAnalysis:
             key = "overflow:%s" % op
             if isinstance(res, AV) and r:
                 src = a if (isinstance(a, AV) and a.t) else b
-                status, text = verdict(res.lo >= r[0] and res.hi <= r[1], res.t,
+                # blame: the overflow must be reachable by the caller-controlled operand(s) alone, with every operand of
+                # unknown internal provenance at its most benign (smallest-magnitude) value
+                blamed = False
+                if res.t and isinstance(a, AV) and isinstance(b, AV):
+                    rb = self.arith(op, a if a.t else _benign(a), b if b.t else _benign(b), ty)
+                    blamed = isinstance(rb, AV) and (rb.lo < r[0] or rb.hi > r[1])
+                    # ... and their bounds must be attained: exact operands from independent sources
+                    ex = all(v.x is not None for v in (a, b) if v.t)
+                    if a.t and b.t and ex and not a.x.isdisjoint(b.x):
+                        ex = False
+                    if blamed and not ex:
+                        blamed = False
+                        self.eng.stats["inexact_possible"] = self.eng.stats.get("inexact_possible", 0) + 1
+                status, text = verdict(res.lo >= r[0] and res.hi <= r[1], blamed,
                                        "`%s` on %s can overflow: operands range over %s and %s; caller-controlled through %s" %
                                        ({"Add": "+", "Sub": "-", "Mul": "*"}[op], ty, _fmt(a), _fmt(b),
                                         getattr(src, "why", "") or "an external value"))
@@ -1035,6 +1169,30 @@ class FnAnalysis:
             e2 = self.refine(dict(env), pred, bool(other[0])) if len(other) == 1 else dict(env)
             outs.append((t["else"], e2))
             return outs
+        # switch on the discriminant of a value whose possible variants are known
+        dinfo = env.get(("discr", dl)) if dl is not None else None
+        if dinfo is not None:
+            rp, poss = dinfo
+            cur = self.get_path(env, rp[0], rp[1])
+            taken = set()
+            for val, tgt in arms:
+                taken.add(val)
+                if val not in poss or not isinstance(cur, Rec):
+                    outs.append((tgt, None) if val not in poss else (tgt, dict(env)))
+                    continue
+                e2 = dict(env)
+                k = ("variant", poss[val])
+                self.set_path(e2, rp[0], rp[1], Rec({k: cur.f[k]}))
+                outs.append((tgt, e2))
+            rest = {v: n for v, n in poss.items() if v not in taken}
+            if not rest:
+                outs.append((t["else"], None))
+            else:
+                e2 = dict(env)
+                if isinstance(cur, Rec):
+                    self.set_path(e2, rp[0], rp[1], Rec({("variant", n): cur.f[("variant", n)] for n in rest.values()}))
+                outs.append((t["else"], e2))
+            return outs
         # integer switch on a variable: refine equality
         dv = self.operand(env, on)
         for val, tgt in arms:
@@ -1043,7 +1201,7 @@ class FnAnalysis:
                 if val < dv.lo or val > dv.hi:
                     outs.append((tgt, None))
                     continue
-                self.apply_refinement(e2, on, AV(val, val, dv.t, dv.why, dv.w))
+                self.apply_refinement(e2, on, AV(val, val, dv.t, dv.why, dv.w, dv.x))
             outs.append((tgt, e2))
         outs.append((t["else"], dict(env)))
         return outs
@@ -1069,6 +1227,10 @@ class FnAnalysis:
                 na, nb = _refine_cmp(op, a, b)
                 if na is None or nb is None:
                     return None
+                if not (b.lo == b.hi) and na is not a:
+                    na.x = None
+                if not (a.lo == a.hi) and nb is not b:
+                    nb.x = None
                 self.apply_refinement(env, lo_, na)
                 self.apply_refinement(env, ro_, nb)
             return env
@@ -1081,15 +1243,15 @@ class FnAnalysis:
                     nl, nh = max(x.lo, lo), min(x.hi, h)
                     if nl > nh:
                         return None
-                    self.apply_refinement(env, xop, AV(nl, nh, x.t, x.why, x.w))
+                    self.apply_refinement(env, xop, AV(nl, nh, x.t, x.why, x.w, x.x))
                 else:
                     # outside the range: only refinable at the ends
                     if x.lo >= lo and x.hi <= h:
                         return None
                     if x.lo >= lo:
-                        self.apply_refinement(env, xop, AV(max(x.lo, h + 1), x.hi, x.t, x.why, x.w))
+                        self.apply_refinement(env, xop, AV(max(x.lo, h + 1), x.hi, x.t, x.why, x.w, x.x))
                     elif x.hi <= h:
-                        self.apply_refinement(env, xop, AV(x.lo, min(x.hi, lo - 1), x.t, x.why, x.w))
+                        self.apply_refinement(env, xop, AV(x.lo, min(x.hi, lo - 1), x.t, x.why, x.w, x.x))
             return env
         return env
 
@@ -1113,7 +1275,7 @@ class FnAnalysis:
         if ab is not None:
             x = self.get_path(env, ab[0], ab[1])
             if isinstance(x, AV):
-                self.set_place(env, ab, AV(max(x.lo, -av.hi), min(x.hi, av.hi), x.t, x.why, x.w))
+                self.set_place(env, ab, AV(max(x.lo, -av.hi), min(x.hi, av.hi), x.t, x.why, x.w, x.x))
 
     # ---- calls -----------------------------------------------------------------------------------------------------------
     def call(self, bb, env, t):
@@ -1139,6 +1301,13 @@ class FnAnalysis:
             val = None
             first = True
             for g in locals_:
+                if g in MONOTONE and len(args) == 1 and isinstance(args[0], AV) and args[0].x is not None and len(locals_) == 1:
+                    mv = eng.fold_monotone(g, args[0])
+                    if mv is not None:
+                        val, first = mv, False
+                        # the body is still analysed for its own sites
+                        eng.call_fn(g, args, self.stack, {})
+                        continue
                 names = eng.fns[g].d.get("generics") or []
                 sub = {}
                 if names and len(names) == len(gargs):
@@ -1218,13 +1387,13 @@ class FnAnalysis:
             if inv:
                 if isinstance(cur, AV):
                     lo, hi = max(cur.lo, inv[0]), min(cur.hi, inv[1])
-                    new = AV(lo, hi, cur.t, cur.why, cur.w) if lo <= hi else AV(inv[0], inv[1], cur.t, cur.why, cur.w)
+                    new = AV(lo, hi, cur.t, cur.why, cur.w, cur.x) if lo <= hi else AV(inv[0], inv[1], cur.t, cur.why, cur.w, cur.x)
                 else:
                     new = AV(inv[0], inv[1], True, "field `%s` of a valid %s" % (name, ty.rsplit("::", 1)[-1]))
             elif finv:
                 fl = cur.f.get(0, cur.f.get("0")) if isinstance(cur, Rec) else None
                 if isinstance(fl, Fl):
-                    nf = Fl(fl.t, fl.why, finv if fl.mag is None else min(fl.mag, finv))
+                    nf = Fl(fl.t, fl.why, finv if fl.mag is None else min(fl.mag, finv), fl.w)
                 else:
                     nf = Fl(True, "field `%s` of a valid %s" % (name, ty.rsplit("::", 1)[-1]), finv)
                 new = Rec({"0": nf, 0: nf})
@@ -1298,34 +1467,34 @@ class FnAnalysis:
         if name in ("from", "into", "try_from", "try_into") and a0 is not None and (path.startswith("core::convert::")):
             if isinstance(a0, AV) and r:
                 if a0.lo >= r[0] and a0.hi <= r[1]:
-                    return AV(a0.lo, a0.hi, a0.t, a0.why, a0.w)
-                return AV(r[0], r[1], a0.t, a0.why, a0.w)
+                    return AV(a0.lo, a0.hi, a0.t, a0.why, a0.w, a0.x)
+                return AV(r[0], r[1], a0.t, a0.why, a0.w, a0.x)
             if isinstance(a0, AV) and dty in ("f64", "f32"):
-                return Fl(a0.t, a0.why, max(abs(a0.lo), abs(a0.hi)))
+                return Fl(a0.t, a0.why, max(abs(a0.lo), abs(a0.hi)), a0.w)
             if isinstance(a0, Fl) and dty in ("f64", "f32"):
                 return a0
             if isinstance(a0, Fl) and r:
                 if a0.mag is not None:
-                    return AV(max(r[0], -a0.mag), min(r[1], a0.mag), a0.t, a0.why)
-                return AV(r[0], r[1], a0.t, a0.why, a0.w)
+                    return AV(max(r[0], -a0.mag), min(r[1], a0.mag), a0.t, a0.why, a0.w, a0.x)
+                return AV(r[0], r[1], a0.t, a0.why, a0.w, a0.x)
             if isinstance(a0, AV) and dty.startswith("core::result::Result<"):
                 inner = re.match(r"core::result::Result<([^,]+),", dty)
                 ir = ty_range(inner.group(1)) if inner else None
                 if ir:
-                    return Rec({0: AV(max(a0.lo, ir[0]), min(a0.hi, ir[1]), a0.t, a0.why, a0.w) if a0.hi >= ir[0] and a0.lo <= ir[1]
-                                else AV(ir[0], ir[1], a0.t, a0.why, a0.w)})
+                    return Rec({0: AV(max(a0.lo, ir[0]), min(a0.hi, ir[1]), a0.t, a0.why, a0.w, a0.x) if a0.hi >= ir[0] and a0.lo <= ir[1]
+                                else AV(ir[0], ir[1], a0.t, a0.why, a0.w, a0.x)})
             return a0 if isinstance(a0, (Lazy, Rec, Fl)) and base_ty(dty) == base_ty(getattr(a0, "ty", dty)) else eng.top(dty, getattr(a0, "t", False), getattr(a0, "why", ""))
         if name == "new" and "RangeInclusive" in path and len(args) == 2:
             return Rec({"start": a0, "end": a1, "incl": AV(1, 1)})
         if name in ("abs", "unsigned_abs") and isinstance(a0, AV):
             m = max(abs(a0.lo), abs(a0.hi))
             lo = 0 if a0.lo <= 0 <= a0.hi else min(abs(a0.lo), abs(a0.hi))
-            return self.clamp_ty(AV(lo, m, a0.t, a0.why, a0.w), dty) if name == "abs" else AV(lo, m, a0.t, a0.why, a0.w)
+            return self.clamp_ty(AV(lo, m, a0.t, a0.why, a0.w, a0.x), dty) if name == "abs" else AV(lo, m, a0.t, a0.why, a0.w, a0.x)
         if name in ("abs", "trunc", "floor", "ceil", "round", "copysign", "signum", "fract") and isinstance(a0, Fl):
             if name in ("floor", "ceil", "round") and a0.mag is not None:
-                return Fl(a0.t, a0.why, a0.mag + 1)
+                return Fl(a0.t, a0.why, a0.mag + 1, a0.w)
             if name in ("signum", "fract"):
-                return Fl(a0.t, a0.why, 1)
+                return Fl(a0.t, a0.why, 1, a0.w)
             return a0
         if name in ("mul_add",) and all(isinstance(x, Fl) for x in args[:3]) and len(args) == 3:
             ms = [x.mag for x in args]
@@ -1347,6 +1516,29 @@ class FnAnalysis:
             return AV(-1, 1)
         if name in ("pow",) and isinstance(a0, AV) and isinstance(a1, AV) and a0.lo >= 0 and a1.lo >= 0 and a1.hi <= 64:
             return self.clamp_ty(AV(a0.lo ** a1.lo, a0.hi ** a1.hi, a0.t or a1.t, a0.why), dty)
+        m_to = re.match(r"^(?:to|from)_([iu](?:8|16|32|64|128|size)|f64|f32)$", name)
+        if m_to and ("num_traits" in path or "ToPrimitive" in path or "FromPrimitive" in path) and a0 is not None:
+            inner = _inner_ty(dty)
+            ir = ty_range(inner) if inner else None
+            if ir and isinstance(a0, (AV, Fl)):
+                if isinstance(a0, AV):
+                    lo, hi = a0.lo, a0.hi
+                else:
+                    lo, hi = (-a0.mag, a0.mag) if a0.mag is not None else (ir[0] - 1, ir[1] + 1)
+                out = {}
+                if hi >= ir[0] and lo <= ir[1]:
+                    out[("variant", "Some")] = Rec({0: AV(max(lo, ir[0]), min(hi, ir[1]), a0.t, a0.why, getattr(a0, "w", False))})
+                if lo < ir[0] or hi > ir[1] or isinstance(a0, Fl):
+                    out[("variant", "None")] = Rec({})
+                return Rec(out)
+            if inner in ("f64", "f32") and isinstance(a0, AV):
+                return Rec({("variant", "Some"): Rec({0: Fl(a0.t, a0.why, max(abs(a0.lo), abs(a0.hi)))})})
+        if name in ("binary_search", "binary_search_by", "binary_search_by_key") and "slice" in path:
+            # Ok(i): the key is element i (0 when it is the first one); Err(i): insertion point (0 when it precedes all).
+            # Both ends are attained for suitable data / keys, which come from the provider's data and the caller's query.
+            src = "the position found by `%s` (0 for the first element / a key before all elements)" % name
+            mk = lambda: AV(0, (1 << 63) - 1, True, src, False, frozenset([src]))
+            return Rec({("variant", "Ok"): Rec({0: mk()}), ("variant", "Err"): Rec({0: mk()})})
         if name == "default" and "Default" in path:
             if r:
                 return AV(0, 0)
@@ -1457,11 +1649,11 @@ class FnAnalysis:
         if name in ("deref", "as_ref", "clone", "borrow", "to_owned", "copied", "cloned", "as_inner", "as_") and a0 is not None:
             if isinstance(a0, Fl) and r:
                 if a0.mag is not None:
-                    return AV(max(r[0], -a0.mag), min(r[1], a0.mag), a0.t, a0.why)
-                return AV(r[0], r[1], a0.t, a0.why, a0.w)
+                    return AV(max(r[0], -a0.mag), min(r[1], a0.mag), a0.t, a0.why, a0.w, a0.x)
+                return AV(r[0], r[1], a0.t, a0.why, a0.w, a0.x)
             if isinstance(a0, AV) and dty in ("f64", "f32"):
-                return Fl(a0.t, a0.why, max(abs(a0.lo), abs(a0.hi)))
-            return a0 if not (isinstance(a0, AV) and r and (a0.lo < r[0] or a0.hi > r[1])) else AV(r[0], r[1], a0.t, a0.why, a0.w)
+                return Fl(a0.t, a0.why, max(abs(a0.lo), abs(a0.hi)), a0.w)
+            return a0 if not (isinstance(a0, AV) and r and (a0.lo < r[0] or a0.hi > r[1])) else AV(r[0], r[1], a0.t, a0.why, a0.w, a0.x)
         if name in ("len",):
             return AV(0, (1 << 63) - 1)
         if name in ("checked_add", "checked_sub", "checked_mul", "checked_div", "checked_neg", "checked_abs",
@@ -1542,6 +1734,14 @@ def _why(*vs):
     return ""
 
 
+def _benign(v):
+    if v.lo <= 0 <= v.hi:
+        m = 0
+    else:
+        m = v.lo if abs(v.lo) < abs(v.hi) else v.hi
+    return AV(m, m)
+
+
 def _tdiv(a, b):
     if b == 0:
         return 0
@@ -1555,25 +1755,25 @@ def _refine_cmp(op, a, b):
         lo, hi = max(a.lo, b.lo), min(a.hi, b.hi)
         if lo > hi:
             return None, None
-        return AV(lo, hi, a.t, a.why, a.w), AV(lo, hi, b.t, b.why, b.w)
+        return AV(lo, hi, a.t, a.why, a.w, a.x), AV(lo, hi, b.t, b.why, b.w, b.x)
     if op == "Ne":
         if a.lo == a.hi == b.lo == b.hi:
             return None, None
         na, nb = a, b
         if b.lo == b.hi:
             if a.lo == b.lo:
-                na = AV(a.lo + 1, a.hi, a.t, a.why, a.w)
+                na = AV(a.lo + 1, a.hi, a.t, a.why, a.w, a.x)
             elif a.hi == b.lo:
-                na = AV(a.lo, a.hi - 1, a.t, a.why, a.w)
+                na = AV(a.lo, a.hi - 1, a.t, a.why, a.w, a.x)
         return na, nb
     if op == "Lt":
         if a.lo >= b.hi:
             return None, None
-        return AV(a.lo, min(a.hi, b.hi - 1), a.t, a.why, a.w), AV(max(b.lo, a.lo + 1), b.hi, b.t, b.why, b.w)
+        return AV(a.lo, min(a.hi, b.hi - 1), a.t, a.why, a.w, a.x), AV(max(b.lo, a.lo + 1), b.hi, b.t, b.why, b.w, b.x)
     if op == "Le":
         if a.lo > b.hi:
             return None, None
-        return AV(a.lo, min(a.hi, b.hi), a.t, a.why, a.w), AV(max(b.lo, a.lo), b.hi, b.t, b.why, b.w)
+        return AV(a.lo, min(a.hi, b.hi), a.t, a.why, a.w, a.x), AV(max(b.lo, a.lo), b.hi, b.t, b.why, b.w, b.x)
     if op == "Gt":
         nb, na = _refine_cmp("Lt", b, a)
         return na, nb
